@@ -704,7 +704,8 @@ def oracle_C01(inp, meta=None):
     sat = (w is not None and conforms(S, w))
     if not sat:
         # look for any conforming value among a few obvious candidates
-        for cand in [None, True, 0, 1, 0.0, 1.0, "", "a", b"", [], {}, math.inf, -math.inf]:
+        fixed = getattr(getattr(S, "props", None), "value", Nil)
+        for cand in ([fixed] if fixed is not Nil else []) + [None, True, 0, 1, 0.0, 1.0, "", "a", b"", [], {}, math.inf, -math.inf]:
             try:
                 if conforms(S, cand):
                     sat = True
